@@ -48,10 +48,9 @@ type OrefaFile struct {
 	vfs        *OrefaFS      // vfs is the memory file system of the file.
 	nd         *node         // nd is node of the file.
 	name       string        // name is the name of the file.
-	dirEntries []fs.DirEntry // dirEntries stores the file information returned by ReadDir function.
-	dirNames   []string      // dirNames stores the names of the file returned by Readdirnames function.
+	dirEntries []fs.DirEntry // dirEntries is the listing of the directory read by ReadDir and Readdirnames.
 	at         int64         // at is current position in the file used by Read and Write functions.
-	dirIndex   int           // dirIndex is the position of the current index for dirEntries ou dirNames slices.
+	dirIndex   int           // dirIndex is the position in dirEntries of the next entry to return.
 	mu         sync.RWMutex  // mu is the RWMutex used to access content of OrefaFile.
 	openMode   avfs.OpenMode // OpenMode defines constants used by OpenFile and CheckPermission functions.
 }
